@@ -265,7 +265,7 @@ def body(ctx, case):
 
     for nm, r, c in (("E", Er, Ec), ("H", Hr, Hc)):
         ctx.check(np.isfinite(r).all() and np.isfinite(c).all(), f"non-finite final {nm}")
-        big = max(_amax(r), _amax(c.real), 1e-300)
+        big = max(_amax(r), _amax(c.real), rho * fmax, 1e-300)  # the final state may be much quieter than the history
         ctx.close(c.real, r, scale=big, tol=tol, msg=f"Re({nm}) of the complex run differs from the real run",
                   metric="re_" + nm)
         im = _amax(c.imag) / big
@@ -307,7 +307,7 @@ def body(ctx, case):
 
 
 SUBS = [
-    Sub(name="complex_vs_real", body=body, strategy=lambda ctx: case_strategy(ctx), quick=16, thorough=800,
+    Sub(name="complex_vs_real", body=body, strategy=lambda ctx: case_strategy(ctx), quick=16, thorough=640,
         lanes=("f64", "f32"), f32_fraction=0.25, quick_shards=2, max_seconds_quick=420.0,
         rule="same spec placed twice (use_complex_fields None / True); fields and detector records compared"),
 ]
